@@ -163,11 +163,16 @@ def mk_case(rng, cid, sig, vararg, tail, kind, opts=None):
         c["res"] = []
         c["probe"] = g.probe_regs(64)
     c["vals"] = [g.rand_value(rng, t) for t in list(sig) + list(tail)]
+    if kind == 0 and vararg and len(tail) >= 2 and "skip" not in c and rng.chance(1, 2):
+        # some variadic arguments are fetched only to advance the va_list (result unused)
+        c["skip"] = sorted({rng.below(len(tail) - 1) for _ in range(1 + rng.below(2))})
     return c
 
 
 def rand_opts(rng):
-    o = {"res": rng.choice(g.RESULTS), "dump_first": rng.chance(1, 2)}
+    o = {"res": g.rand_res(rng), "dump_first": rng.chance(1, 2)}
+    if rng.chance(1, 4):
+        o["ldops"] = 1 + rng.below(12)  # iterations of the loop over every long double insn
     o["K"] = rng.choice([0, 0, 2, 5, 9, 14, 20])
     o["KD"] = rng.choice([0, 0, 3, 9])
     o["calls"] = rng.choice([0, 1, 1, 2, 3])
@@ -211,12 +216,13 @@ FIXED_SIGS = [
     ([("rblk", 24), ("blk", 0, 40), ("blk", 1, 3), ("blk", 2, 12), ("blk", 4, 12)], False, []),
 ]
 FIXED_OPTS = [
-    {"res": ["i64"], "K": 14, "KD": 4, "calls": 2, "alloca_const": 37, "alloca_var": 8},
+    {"res": ["i64"], "K": 14, "KD": 4, "calls": 2, "alloca_const": 37, "alloca_var": 8, "ldops": 9},
     {"res": [], "K": 0, "KD": 0, "calls": 0},
     {"res": ["d"], "K": 20, "KD": 9, "calls": 1, "dump_first": True},
     {"res": ["i64", "d"], "K": 5, "KD": 0, "calls": 3, "alloca_var": 9},
     {"res": ["ld", "ld"], "K": 9, "calls": 1, "alloca_const": 1},
-    {"res": ["ld"], "K": 2, "calls": 0, "alloca_const": 4096},
+    {"res": ["ld"], "K": 2, "calls": 0, "alloca_const": 4096, "ldops": 12},
+    {"res": ["f", "d", "i64", "ld", "i32", "ld"], "K": 3, "calls": 1, "ldops": 2},
 ]
 
 
@@ -338,7 +344,10 @@ def state_problems(c, d):
     return p
 
 
-def value_problems(c, d, tab):
+RET_OFF = {"rax": 0, "rdx": 8, "xmm0": 16, "xmm1": 32, "st0": 48, "st1": 64}
+
+
+def value_problems(c, d, tab, m=None):
     out, res = bytes.fromhex(d["out"]), bytes.fromhex(d["res"])
     p = []
     for off, b, what in g.expected_out(c, tab):
@@ -347,13 +356,35 @@ def value_problems(c, d, tab):
     for off, b in g.expected_res(c, tab):
         if res[off:off + len(b)] != b:
             p.append(f"result bytes at {off}: expected {b.hex()} got {res[off:off + len(b)].hex()}")
+    ret = bytes.fromhex(d.get("ret", ""))
+    exp = g.expected_ret_regs(c, tab)
+    for off, b, what in exp:
+        if ret[off:off + len(b)] != b:
+            p.append(f"{what}: expected {b.hex()} got {ret[off:off + len(b)].hex()}")
+    if m is not None:
+        # the Lean model of the result marshalling (MIR_RET lowering / interp shim) names the same registers
+        locs = [x for x in m["ret_shim" if d["iface"] == "interp" else "ret_gen"] if x]
+        names = []
+        cnt = {"int": 0, "sse": 0, "x87": 0}
+        for r in c.get("res", []):
+            k = g.res_class(r)
+            names.append({"int": ["rax", "rdx"], "sse": ["xmm0", "xmm1"], "x87": ["st0", "st1"]}[k][cnt[k]])
+            cnt[k] += 1
+        if locs != names and len(ck.broken_ties) < 8:
+            ck.broken_ties.append({"kind": "correspondence", "name": "result registers: model vs specification table",
+                                   "model": locs, "spec": names, "results": c.get("res", [])})
     return p
 
 
 def model_lines(c):
     s, t = g.sig_str(c["sig"]), g.sig_str(c.get("tail", []))
     return [f"spec {s}", f"gen {s}", f"shim {s}", f"vastart {s}", f"walk {s} | {t}",
-            f"diag gen {1 if c['vararg'] else 0} {s} | {t}", f"diag shim {1 if c['vararg'] else 0} {s} | {t}"]
+            f"diag gen {1 if c['vararg'] else 0} {s} | {t}", f"diag shim {1 if c['vararg'] else 0} {s} | {t}",
+            "ret gen " + " ".join(g.res_class(r) for r in c.get("res", [])),
+            "ret shim " + " ".join(g.res_class(r) for r in c.get("res", []))]
+
+
+NLINES = 9
 
 
 def parse_model(lines):
@@ -369,6 +400,8 @@ def parse_model(lines):
     m["diag_shim"] = lines[6].split(" ")[1:] if lines[6].startswith("diag") else ["?"]
     for k in ("diag_gen", "diag_shim"):
         m[k] = [x for x in m[k] if x]
+    m["ret_gen"] = lines[7].split(" ")[1:] if lines[7].startswith("ret") else ["?"]
+    m["ret_shim"] = lines[8].split(" ")[1:] if lines[8].startswith("ret") else ["?"]
     return m
 
 
@@ -560,7 +593,7 @@ def judge(cases, results, crashes, label, shrink=True):
     for c in cases:
         lines += model_lines(c)
     ml = drv(lines)
-    models = {c["id"]: parse_model(ml[7 * i: 7 * i + 7]) for i, c in enumerate(cases)}
+    models = {c["id"]: parse_model(ml[NLINES * i: NLINES * i + NLINES]) for i, c in enumerate(cases)}
     failing, tie_breaks = [], []
     blobs, fq = {}, []
     by_id = {c["id"]: c for c in cases}
@@ -572,7 +605,7 @@ def judge(cases, results, crashes, label, shrink=True):
             continue
         probs = state_problems(c, d)
         if c["kind"] == 0:
-            probs += value_problems(c, d, tab)
+            probs += value_problems(c, d, tab, m)
             if probs:
                 failing.append((c, d, probs, m))
         else:
@@ -629,8 +662,15 @@ def shrink(c, d, probs, m):
             cc["sig"] = [x for j, x in enumerate(cur["sig"]) if j != i]
             cc["tail"] = [x for j, x in enumerate(cur["tail"]) if j + n != i]
             cc["vals"] = [x for j, x in enumerate(cur["vals"]) if j != i]
+            if cur.get("skip"):
+                cc["skip"] = [j - (1 if i >= n and j > i - n else 0) for j in cur["skip"] if j != i - n]
             cands.append(cc)
-        for k in ("K", "KD", "calls", "alloca_const", "alloca_var"):
+        for k in ("K", "KD", "calls", "alloca_const", "alloca_var", "ldops", "skip"):
+            if k in ("ldops", "skip") and cur.get(k):
+                cc = dict(cur)
+                cc.pop(k)
+                cands.append(cc)
+                continue
             if cur.get(k):
                 cc = dict(cur)
                 cc[k] = 0 if k not in ("alloca_const", "alloca_var") else None
@@ -641,6 +681,10 @@ def shrink(c, d, probs, m):
             cc = dict(cur)
             cc["res"] = []
             cands.append(cc)
+            for i in range(len(cur["res"])):
+                cc = dict(cur)
+                cc["res"] = [x for j, x in enumerate(cur["res"]) if j != i]
+                cands.append(cc)
         cands = [cc for cc in cands if gcc_expressible(cc["sig"], cc["tail"], cc["vararg"])]
         for i, cc in enumerate(cands):
             cc["id"] = i
@@ -720,7 +764,13 @@ def note_cases(cases):
                 if c.get(k) is not None and c.get(k) != 0:
                     dist[k] = dist.get(k, 0) + 1
             dist[f"pressure_K{c.get('K', 0)}"] = dist.get(f"pressure_K{c.get('K', 0)}", 0) + 1
-            dist["res_" + "_".join(c.get("res", [])) or "void"] = dist.get("res_" + "_".join(c.get("res", [])) or "void", 0) + 1
+            for k in ("ldops", "skip"):
+                if c.get(k):
+                    dist[k] = dist.get(k, 0) + 1
+            if g.rawres(c):
+                dist["res_register_judged"] = dist.get("res_register_judged", 0) + 1
+            rk = "res_" + ("_".join(c.get("res", [])) if not g.rawres(c) else f"{len(c['res'])}_results_no_C_type")
+            dist[rk] = dist.get(rk, 0) + 1
 
 
 # ---- replay of one saved case
@@ -799,6 +849,16 @@ for dff in unit_diffs[:6]:
             continue
         t = ("blk", k, size)
     add_sig([I64], True, pre + [t, I64, ("d",)], [FIXED_OPTS[1]])
+# every pair and triple of result classes, entered through every interface (result-register placement)
+for i, rl in enumerate(g.all_small_res()):
+    sg = [[I64, ("d",)], [], [("d",), ("ld",), I64]][i % 3]
+    cases.append(mk_case(rng, len(cases), sg, False, [], 0, {"res": rl, "K": [0, 3][i % 2], "calls": i % 2}))
+# variadic consumers that skip arguments of every class
+for sk, tl in [([0], [I64, I64]), ([0], [("d",), ("d",)]), ([0, 2], [I64, ("d",), ("ld",), I64, ("d",)]),
+               ([1], [("blk", 1, 16), ("ld",), ("blk", 3, 16), ("d",)]), ([0, 1, 2, 3, 4, 5, 6], [I64] * 8),
+               ([0, 1, 2, 3, 4, 5, 6, 7, 8], [("d",)] * 10)]:
+    cc = mk_case(rng, len(cases), [I64], True, tl, 0, dict(FIXED_OPTS[1], skip=sk))
+    cases.append(cc)
 NSIG = 1200 if QUICK else 12000
 for _ in range(NSIG):
     probe = rng.chance(1, 3)
@@ -861,7 +921,11 @@ ck.cov["rule"] = ("signatures: fixed register-file boundary list + splitmix-rand
                   "i8..u64,p,f,d,ld,blk0-4(sizes 1-64),rblk with an optional variadic tail of 0-13 elements; each signature "
                   "is run as a raw sentinel probe (all six integer registers, both halves of xmm0-7 and 64 stack words carry "
                   "distinct sentinels) and, when C can express it, as gcc-compiled caller(s) with random values, random result "
-                  "list, 0-20 integer and 0-9 double values live across 0-3 external calls, constant/variable alloca; every case "
+                  "list, 0-20 integer and 0-9 double values live across 0-3 external calls, constant/variable alloca, optionally a loop over every "
+                  "long double insn (arithmetic, conversions, compares, branches with both outcomes; x87 stack depth judged at "
+                  "return) and variadic arguments fetched only to advance the va_list; result lists of 0-6 results (every pair and "
+                  "triple of i64,f,d,ld in every run; lists without a C type are judged on rax/rdx/xmm0/xmm1/st0/st1 as recorded by "
+                  "the trampoline); every case "
                   "runs under interp shim, gen -O0..-O3 and lazy gen (thorough: also lazy basic-block gen).  evaluations = (case, interface) pairs judged + unit "
                   "va_list states.  non-trivial = more than six named parameters, or stack/block/variadic parameters, or >=5 "
                   "values live across a call, or alloca; distinct by signature, kind and body shape.")
